@@ -25,6 +25,7 @@ use crate::rng::Rng;
 use crate::util::{hex, nat_list, unhex};
 use crate::{Ctx, Tier};
 use futures::StreamExt;
+use scylla::client::caching_session::CachingSession;
 use scylla::client::session::Session;
 use scylla::client::session_builder::SessionBuilder;
 use scylla::errors::{NextPageError, NextRowError, PagerExecutionError, RequestAttemptError, RequestError};
@@ -58,9 +59,16 @@ struct PageSpec {
 
 #[derive(Clone, Copy, Debug, PartialEq)]
 enum Consumer {
+    /// a bare `while let Some(..) = stream.next().await` loop: the only wake source is the stream itself
     Eager,
     Slow,
+    /// `next()` under `select!` with a 3 ms timer that re-polls it (a lost wake-up cannot hang this one)
+    Timed,
     Drop(usize),
+    /// cluster family: after `k` rows (and once the producer has run as far ahead as it can) the node that
+    /// served the last page is STOPPED and the driver is given time to notice that its pool is empty; then
+    /// the rest is consumed eagerly
+    Kill(usize),
     /// `k` rows, then ONE more poll of `next()` (which may swallow an empty page and stay pending), then drop
     PollDrop(usize),
 }
@@ -72,12 +80,18 @@ struct Case {
     downgrading: bool,
     /// `squery`: `Session::query_iter` with an unprepared statement without values (QUERY frames)
     unprepared: bool,
+    /// `squeryv`: `Session::query_iter` with values (prepares, then pages like execute_iter)
+    with_values: bool,
+    /// `scache`: `CachingSession::execute_iter`
+    caching: bool,
     /// `ctl`: the script answers the control connection's paged `system.peers` query while a Session is built
     ctl: bool,
     /// `pgk`: the bound values lack the partition-key value (PartitionKeyError before the first fetch)
     pk_error: bool,
-    /// `clu<n><i|n>`: session pager on an n-node mock cluster, statement idempotent or not (0 = no cluster)
+    /// `clu<n><i|n>`: session pager on an n-node mock cluster, statement idempotent or not (0 = no cluster);
+    /// `cls<n><i|n>`: the same with 2 shards per node (a target is then a (node, shard) pair)
     cluster: usize,
+    sharded: bool,
     idempotent: bool,
     /// mode 2|3: SCYLLA_USE_METADATA_ID negotiated (3: the node sends full metadata on every page, 2: only
     /// when asked to or when the id presented is stale)
@@ -119,6 +133,8 @@ fn fmt_case(skip: bool, consumer: Consumer, pages: &[PageSpec]) -> String {
     let c = match consumer {
         Consumer::Eager => "eager".to_owned(),
         Consumer::Slow => "slow".to_owned(),
+        Consumer::Timed => "timed".to_owned(),
+        Consumer::Kill(k) => format!("kill{}", k),
         Consumer::Drop(k) => format!("drop{}", k),
         Consumer::PollDrop(k) => format!("pdrop{}", k),
     };
@@ -131,19 +147,22 @@ fn parse_case(line: &str) -> Option<Case> {
         return None;
     }
     let (mut cluster, mut idempotent) = (0usize, false);
-    if w[0].len() == 5 && w[0].starts_with("clu") {
+    let sharded = w[0].starts_with("cls");
+    if w[0].len() == 5 && (w[0].starts_with("clu") || sharded) {
         let b = w[0].as_bytes();
         if !(b'1'..=b'9').contains(&b[3]) || (b[4] != b'i' && b[4] != b'n') {
             return None;
         }
         cluster = (b[3] - b'0') as usize;
         idempotent = b[4] == b'i';
-    } else if !["pg", "pgk", "sessk", "sess", "squery", "sessdg", "ctl"].contains(&w[0]) {
+    } else if !["pg", "pgk", "sessk", "sess", "squery", "squeryv", "scache", "sessdg", "ctl"].contains(&w[0]) {
         return None;
     }
     let session = !(w[0] == "pg" || w[0] == "pgk");
     let downgrading = w[0] == "sessdg";
-    let unprepared = w[0] == "squery";
+    let unprepared = w[0] == "squery" || w[0] == "squeryv";
+    let with_values = w[0] == "squeryv";
+    let caching = w[0] == "scache";
     // `sessk`: the SESSION constructor's PartitionKeyError (pager.rs 949-958): the values serialize, but the
     // composite partition key is too long to compute a token for
     let pk_error = w[0] == "pgk" || w[0] == "sessk";
@@ -158,6 +177,8 @@ fn parse_case(line: &str) -> Option<Case> {
     let consumer = match w[2] {
         "eager" => Consumer::Eager,
         "slow" => Consumer::Slow,
+        "timed" => Consumer::Timed,
+        s if s.starts_with("kill") => Consumer::Kill(s[4..].parse().ok()?),
         s if s.starts_with("pdrop") => Consumer::PollDrop(s[5..].parse().ok()?),
         s if s.starts_with("drop") => Consumer::Drop(s[4..].parse().ok()?),
         _ => return None,
@@ -184,15 +205,18 @@ fn parse_case(line: &str) -> Option<Case> {
     let all: Vec<char> = pages.iter().flat_map(|p| p.faults.iter().copied()).collect();
     if later.iter().any(|c| "XkK".contains(*c))
         || (!session && all.iter().any(|c| "kK".contains(*c)))
-        || (unprepared && all.contains(&'u'))
+        || (unprepared && !with_values && all.contains(&'u'))
         || (cluster > 0 && all.iter().any(|c| !"doUbRrsWi".contains(*c)))
         || (downgrading && all.contains(&'X'))
         || (pk_error && ext)
+        // with a stopped node the outcome of next-target hops depends on where the (random) plan puts it:
+        // only same-target retries are scripted together with `kill`
+        || (matches!(consumer, Consumer::Kill(_)) && (cluster < 2 || all.iter().any(|c| !"dR".contains(*c))))
         || (ctl && (ext || consumer != Consumer::Eager || all.iter().any(|c| !"ud".contains(*c))))
     {
         return None;
     }
-    Some(Case { session, downgrading, unprepared, pk_error, ctl, cluster, idempotent, ext, always_full, skip, consumer, pages })
+    Some(Case { session, downgrading, unprepared, with_values, caching, pk_error, ctl, sharded, cluster, idempotent, ext, always_full, skip, consumer, pages })
 }
 
 // ---------------------------------------------------------------------------------------------
@@ -223,6 +247,8 @@ struct Script {
     exec_nodes: Vec<usize>,
     /// how each recorded request was answered: 'p' page served, else the fault letter
     exec_answers: Vec<char>,
+    /// `kill<k>`: (request index at the time of the kill, node stopped)
+    killed: Option<(usize, usize)>,
     /// `ctl`: the page script is the answer to the CONTROL CONNECTION's system.peers query (rows = peers)
     ctl: bool,
     /// `K`: the session's `USE` after a SetKeyspace first response is answered with an error
@@ -383,7 +409,11 @@ fn handler(script: Arc<Mutex<Script>>, min_conn: Arc<AtomicUsize>, ext: bool) ->
 fn cluster_handler(script: Arc<Mutex<Script>>) -> ClusterHandler {
     let mut h = handler(Arc::clone(&script), Arc::new(AtomicUsize::new(0)), false);
     Box::new(move |r: &Req| {
-        script.lock().unwrap().cur_node = r.node;
+        // a target is a node, or - on sharded nodes - a (node, shard) pair: `node * 64 + shard`
+        script.lock().unwrap().cur_node = match r.shard {
+            Some(sh) => r.node * 64 + sh as usize,
+            None => r.node * 64,
+        };
         let req = Request { seq: r.seq, conn: r.conn, stream: r.stream, flags: r.flags, opcode: r.opcode, body: r.body.clone(), parsed: r.parsed.clone() };
         h(&req)
             .into_iter()
@@ -418,6 +448,15 @@ fn handler_inner(script: Arc<Mutex<Script>>, min_conn: Arc<AtomicUsize>, ext: bo
                 }
             }
             vec![Action::Respond(RESP_RESULT, body_prepared_raw(&id, &node_cols(local), if local { "local" } else { "peers" }, ext))]
+        }
+        Parsed::Prepare { text } if text.contains("/*v*/") => {
+            // one bind marker that is not part of the partition key
+            let s = script.lock().unwrap();
+            let c = cols(s.version);
+            let rm = ResultMeta { col_count: c.len() as i32, cols: Some(c), ..Default::default() };
+            let mid = metadata_id(s.version);
+            let bind = [Col { name: "v".into(), type_id: 0x0009 }];
+            vec![Action::Respond(RESP_RESULT, body_prepared(&md5ish(text), if ext { Some(&mid[..]) } else { None }, &bind, &[], &rm))]
         }
         Parsed::Prepare { text } if text.contains("/*pk2*/") => {
             // two bind markers forming a composite partition key
@@ -600,6 +639,18 @@ fn handler_inner(script: Arc<Mutex<Script>>, min_conn: Arc<AtomicUsize>, ext: bo
 enum Client {
     Conn(VerifConn),
     Sess(Session),
+    /// `scache`: the same session wrapped in a `CachingSession` (its `execute_iter` prepares through the cache)
+    Cache(CachingSession),
+}
+
+impl Client {
+    fn session(&self) -> Option<&Session> {
+        match self {
+            Client::Sess(s) => Some(s),
+            Client::Cache(c) => Some(c.get_session()),
+            Client::Conn(_) => None,
+        }
+    }
 }
 
 enum Server {
@@ -617,8 +668,10 @@ struct Env {
 thread_local! {
     static RT: tokio::runtime::Runtime = tokio::runtime::Builder::new_current_thread().enable_all().build().unwrap();
     /// one environment per (session?, metadata-id extension?)
-    static ENVS: RefCell<[Option<Env>; 8]> = const { RefCell::new([None, None, None, None, None, None, None, None]) };
+    static ENVS: RefCell<[Option<Env>; 16]> =
+        const { RefCell::new([None, None, None, None, None, None, None, None, None, None, None, None, None, None, None, None]) };
     static CASE_NO: std::cell::Cell<u64> = const { std::cell::Cell::new(0) };
+    static HANGS: std::cell::Cell<u32> = const { std::cell::Cell::new(0) };
 }
 
 fn pager_error_label(e: &PagerExecutionError) -> String {
@@ -683,8 +736,87 @@ fn conv_row(r: scylla::value::Row) -> (i32, u8) {
     }
 }
 
-/// The consumer: `eager`, `slow`, `drop<k>`, `pdrop<k>` over any typed row stream.
-async fn consume<S, T>(mut stream: S, consumer: Consumer, conv: fn(T) -> (i32, u8), obs: &mut Observed)
+/// A future that polls its inner future only when one of the inner future's OWN wakers fired (and once at
+/// the start): polls caused by other branches of a `select!` do not reach the inner future.
+struct Isolated<F> {
+    inner: std::pin::Pin<Box<F>>,
+    flag: Arc<IsolatedFlag>,
+}
+
+struct IsolatedFlag {
+    woken: std::sync::atomic::AtomicBool,
+    outer: Mutex<Option<std::task::Waker>>,
+}
+
+impl std::task::Wake for IsolatedFlag {
+    fn wake(self: Arc<Self>) {
+        self.woken.store(true, Ordering::SeqCst);
+        if let Some(w) = self.outer.lock().unwrap().as_ref() {
+            w.wake_by_ref();
+        }
+    }
+}
+
+impl<F: std::future::Future> Isolated<F> {
+    fn new(f: F) -> Self {
+        Isolated { inner: Box::pin(f), flag: Arc::new(IsolatedFlag { woken: std::sync::atomic::AtomicBool::new(true), outer: Mutex::new(None) }) }
+    }
+}
+
+impl<F: std::future::Future> std::future::Future for Isolated<F> {
+    type Output = F::Output;
+    fn poll(mut self: std::pin::Pin<&mut Self>, cx: &mut std::task::Context<'_>) -> std::task::Poll<F::Output> {
+        *self.flag.outer.lock().unwrap() = Some(cx.waker().clone());
+        if !self.flag.woken.swap(false, Ordering::SeqCst) {
+            return std::task::Poll::Pending;
+        }
+        let waker = std::task::Waker::from(Arc::clone(&self.flag));
+        let mut inner_cx = std::task::Context::from_waker(&waker);
+        self.inner.as_mut().poll(&mut inner_cx)
+    }
+}
+
+/// The consumer: `eager`, `slow`, `timed`, `drop<k>`, `pdrop<k>` over any typed row stream.
+/// What the `kill<k>` consumer needs to stop the current coordinator.
+struct KillCtx<'a> {
+    cluster: &'a MockCluster,
+    session: &'a Session,
+    script: &'a Arc<Mutex<Script>>,
+}
+
+impl KillCtx<'_> {
+    /// Waits until the producer is quiescent, stops the node that served the last page and waits until the
+    /// driver's pool for it reports "not connected". Records (request index at the kill, node).
+    async fn kill_coordinator(&self) {
+        let count = || self.script.lock().unwrap().execs.len();
+        let (mut last, mut stable) = (count(), 0);
+        while stable < 4 {
+            tokio::time::sleep(Duration::from_millis(2)).await;
+            let c = count();
+            if c == last { stable += 1 } else { stable = 0; last = c }
+        }
+        let node = {
+            let s = self.script.lock().unwrap();
+            s.exec_answers.iter().rposition(|a| *a == 'p').map(|i| s.exec_nodes[i] / 64)
+        };
+        let Some(node) = node else { return };
+        self.cluster.stop_node(node).await;
+        let hid = uuid::Uuid::from_bytes(host_id_of(node));
+        let t0 = std::time::Instant::now();
+        while t0.elapsed() < Duration::from_secs(8) {
+            let cs = self.session.get_cluster_state();
+            if cs.get_nodes_info().iter().any(|n| n.host_id == hid && !n.is_connected()) {
+                break;
+            }
+            tokio::time::sleep(Duration::from_millis(2)).await;
+        }
+        let mut s = self.script.lock().unwrap();
+        let at = s.execs.len();
+        s.killed = Some((at, node));
+    }
+}
+
+async fn consume<S, T>(mut stream: S, consumer: Consumer, conv: fn(T) -> (i32, u8), obs: &mut Observed, progress: &AtomicUsize, kill: Option<KillCtx<'_>>)
 where
     S: futures::Stream<Item = Result<T, NextRowError>> + Unpin,
 {
@@ -692,7 +824,14 @@ where
         Consumer::Drop(k) | Consumer::PollDrop(k) => Some(k),
         _ => None,
     };
+    let mut killed = false;
     loop {
+        if let (Consumer::Kill(k), false, Some(ctx)) = (consumer, killed, kill.as_ref()) {
+            if obs.delivered.len() >= k {
+                killed = true;
+                ctx.kill_coordinator().await;
+            }
+        }
         if let Some(k) = limit {
             if obs.delivered.len() >= k {
                 if let Consumer::PollDrop(_) = consumer {
@@ -732,11 +871,23 @@ where
                 return;
             }
         }
-        match stream.next().await {
+        let item = if consumer == Consumer::Timed {
+            loop {
+                tokio::select! {
+                    biased;
+                    it = stream.next() => break it,
+                    _ = tokio::time::sleep(Duration::from_millis(3)) => {}
+                }
+            }
+        } else {
+            stream.next().await
+        };
+        match item {
             Some(Ok(r)) => {
                 let (v, sh) = conv(r);
                 obs.delivered.push(v);
                 obs.shapes.push(sh);
+                progress.fetch_add(1, Ordering::SeqCst);
                 if consumer == Consumer::Slow {
                     for _ in 0..3 {
                         tokio::task::yield_now().await;
@@ -764,12 +915,19 @@ where
     }
 }
 
+/// After this many HANG verdicts in one `hx` process the remaining cases are not run (each hang costs its
+/// watchdog window; the run has failed long before and the first verdicts name their cases).
+const MAX_HANGS: u32 = 25;
+
 async fn run_case(case: &Case, ctx: &mut Ctx) -> String {
+    if HANGS.with(|h| h.get()) >= MAX_HANGS {
+        return format!("NOT-RUN ({} earlier cases of this process hung)", MAX_HANGS);
+    }
     // (re)build what is missing
     if case.cluster > 4 {
         return "bad-case".to_owned();
     }
-    let slot = if case.ctl { 0 } else if case.cluster > 0 { 3 + case.cluster } else { (case.session as usize) * 2 + case.ext as usize };
+    let slot = if case.ctl { 0 } else if case.caching { 8 + case.ext as usize } else if case.cluster > 0 && case.sharded { 11 + case.cluster } else if case.cluster > 0 { 3 + case.cluster } else { (case.session as usize) * 2 + case.ext as usize };
     let mut env = if case.ctl { None } else { ENVS.with(|e| e.borrow_mut()[slot].take()) };
     if env.is_none() {
         let script = Arc::new(Mutex::new(Script::default()));
@@ -778,7 +936,7 @@ async fn run_case(case: &Case, ctx: &mut Ctx) -> String {
             // n unsharded nodes in one datacenter; the control connection's queries are answered by the
             // cluster itself, everything else by the case's script (whichever node is asked)
             let nodes = (0..case.cluster)
-                .map(|i| NodeSpec { host_id: host_id_of(i), dc: "dc1".into(), rack: "r1".into(), tokens: vec![(i as i64) * 1000 - 500, (i as i64) * 1000 + 7_000_000], shards: ShardMode::None })
+                .map(|i| NodeSpec { host_id: host_id_of(i), dc: "dc1".into(), rack: "r1".into(), tokens: vec![(i as i64) * 1000 - 500, (i as i64) * 1000 + 7_000_000], shards: if case.sharded { ShardMode::ByPort(2, 12) } else { ShardMode::None } })
                 .collect();
             let topo = Topology { nodes, keyspaces: Vec::new(), tablets_ext: false };
             Server::Cluster(MockCluster::start(topo, cluster_handler(Arc::clone(&script))).await)
@@ -842,7 +1000,7 @@ async fn run_case(case: &Case, ctx: &mut Ctx) -> String {
                     return "HARNESS-ERROR".to_owned();
                 }
             };
-            env.conn = Some(Client::Sess(session));
+            env.conn = Some(if case.caching { Client::Cache(CachingSession::from(session, 64)) } else { Client::Sess(session) });
         } else {
             let conn = match VerifConn::open(node.addr, VerifConnOptions::default()).await {
                 Ok(c) => c,
@@ -862,7 +1020,7 @@ async fn run_case(case: &Case, ctx: &mut Ctx) -> String {
         c.set(c.get() + 1);
         c.get()
     });
-    let text = format!("{} WHERE case_no = {}{}", QUERY, case_no, if case.pk_error && case.session { " AND p = ? AND q = ? /*pk2*/" } else if case.pk_error { " AND p = ? /*pk*/" } else { "" });
+    let text = format!("{} WHERE case_no = {}{}", QUERY, case_no, if case.with_values { " AND v = ? /*v*/" } else if case.pk_error && case.session { " AND p = ? AND q = ? /*pk2*/" } else if case.pk_error { " AND p = ? /*pk*/" } else { "" });
     if !case.ctl {
         env.script.lock().unwrap().statement_id = md5ish(&text);
     }
@@ -874,6 +1032,7 @@ async fn run_case(case: &Case, ctx: &mut Ctx) -> String {
     let prepared = match env.conn.as_ref().unwrap() {
         Client::Conn(c) => c.prepare(&st).await,
         Client::Sess(s) => s.prepare(st).await.map_err(|e| e.to_string()),
+        Client::Cache(c) => c.get_session().prepare(st).await.map_err(|e| e.to_string()),
     };
     let mut prepared = match prepared {
         Ok(p) => p,
@@ -883,7 +1042,7 @@ async fn run_case(case: &Case, ctx: &mut Ctx) -> String {
         }
     };
     let has_timeout_fault = case.pages.iter().any(|p| p.faults.contains(&'T'));
-    let dirty = case.ctl || case.pages.iter().any(|p| p.faults.iter().any(|c| "TcXkK".contains(*c)));
+    let dirty = case.ctl || matches!(case.consumer, Consumer::Kill(_)) || case.pages.iter().any(|p| p.faults.iter().any(|c| "TcXkK".contains(*c)));
     let conn = env.conn.as_ref().unwrap();
     prepared.set_use_cached_result_metadata(case.skip);
     if case.downgrading {
@@ -899,17 +1058,20 @@ async fn run_case(case: &Case, ctx: &mut Ctx) -> String {
     let cancel_ctor = case.pages[0].faults.contains(&'X');
     let unprepared = case.unprepared;
     let pk_error = case.pk_error;
+    let with_values = case.with_values;
 
     let script = Arc::clone(&env.script);
     let consumer = case.consumer;
     let case_ext = case.ext;
     let case_ctl = case.ctl;
+    let progress = AtomicUsize::new(0);
+    let env_node = &env.node;
     let body = async {
         let mut obs = Observed { delivered: Vec::new(), shapes: Vec::new(), fin: String::new() };
         if case_ctl {
             // the pager under test ran inside the session's metadata fetch (ControlConnection::query_iter ->
             // Connection::execute_iter): the rows it delivered are the peers the session knows
-            if let Client::Sess(session) = conn {
+            if let Some(session) = conn.session() {
                 let state = session.get_cluster_state();
                 let mut found: Vec<i32> = state
                     .get_nodes_info()
@@ -929,7 +1091,12 @@ async fn run_case(case: &Case, ctx: &mut Ctx) -> String {
         let ctor = async {
             match conn {
                 Client::Conn(c) => c.execute_iter_raw(prepared, SerializedValues::new()).await.map_err(|e| error_label(&e)),
+                Client::Sess(s) if unprepared && with_values => {
+                    // query_iter WITH values: the session prepares the statement and takes the execute_iter path
+                    s.query_iter(unprepared_statement, (7i32,)).await.map_err(|e| pager_error_label(&e))
+                }
                 Client::Sess(s) if unprepared => s.query_iter(unprepared_statement, ()).await.map_err(|e| pager_error_label(&e)),
+                Client::Cache(c) => c.execute_iter(unprepared_statement, ()).await.map_err(|e| pager_error_label(&e)),
                 Client::Sess(s) if pk_error => {
                     // 70000 bytes in one component of a composite key: serializable, but no token can be computed
                     s.execute_iter(prepared, (vec![7u8; 70_000], vec![1u8])).await.map_err(|e| pager_error_label(&e))
@@ -977,23 +1144,78 @@ async fn run_case(case: &Case, ctx: &mut Ctx) -> String {
         if case_ext {
             // the columns change from page to page: decode into untyped rows and check the shape per row
             match pager.rows_stream::<scylla::value::Row>() {
-                Ok(stream) => consume(stream, consumer, conv_row, &mut obs).await,
+                Ok(stream) => consume(stream, consumer, conv_row, &mut obs, &progress, None).await,
                 Err(_) => obs.fin = "ctor:TypeCheck".to_owned(),
             }
         } else {
             match pager.rows_stream::<(i32,)>() {
-                Ok(stream) => consume(stream, consumer, conv_int, &mut obs).await,
+                Ok(stream) => {
+                    let kill = match (&env_node, conn.session()) {
+                        (Server::Cluster(cluster), Some(session)) => Some(KillCtx { cluster, session, script: &script }),
+                        _ => None,
+                    };
+                    consume(stream, consumer, conv_int, &mut obs, &progress, kill).await
+                }
                 Err(_) => obs.fin = "ctor:TypeCheck".to_owned(),
             }
         }
         obs
     };
-    let obs = match tokio::time::timeout(Duration::from_secs(20), body).await {
-        Ok(o) => o,
-        Err(_) => {
-            ctx.fail("the row stream did not finish within 20 s (hang)");
+    // PER-CASE WATCHDOG. The case body runs "isolated": it is polled only when one of ITS OWN wakers fired (so
+    // the watchdog's timer never re-polls the stream and cannot paper over a lost wake-up). The watchdog
+    // declares a hang when for a long stretch of REAL time neither a row was delivered nor a page request
+    // reached the node - milliseconds would do on an idle machine; the window is generous for a loaded one
+    // and shrinks only after a first hang was already reported in this process (the run has failed then).
+    let hangs_so_far = HANGS.with(|h| h.get());
+    let mut window = if hangs_so_far == 0 { Duration::from_secs(8) } else if hangs_so_far < 3 { Duration::from_secs(3) } else if hangs_so_far < 8 { Duration::from_millis(1200) } else { Duration::from_millis(400) };
+    if has_timeout_fault {
+        window = window.max(Duration::from_secs(6));
+    }
+    if let Consumer::Kill(_) = case.consumer {
+        window = window.max(Duration::from_secs(15)); // the driver has to notice the stopped node
+    }
+    let watchdog = async {
+        let mut last = (usize::MAX, usize::MAX);
+        let mut since = std::time::Instant::now();
+        loop {
+            tokio::time::sleep(Duration::from_millis(20)).await;
+            let cur = (progress.load(Ordering::SeqCst), script.lock().unwrap().execs.len());
+            if cur != last {
+                last = cur;
+                since = std::time::Instant::now();
+            } else if since.elapsed() > window {
+                return;
+            }
+        }
+    };
+    let outcome = tokio::select! {
+        biased;
+        o = Isolated::new(body) => Some(o),
+        _ = watchdog => None,
+    };
+    let obs = match outcome {
+        Some(o) => o,
+        None => {
+            HANGS.with(|h| h.set(h.get() + 1));
+            let s = script.lock().unwrap();
+            let sent_rows: usize = s.sent.iter().map(|p| p.len()).sum();
+            let got = progress.load(Ordering::SeqCst);
+            ctx.fail(format!(
+                "HANG: the stream neither yielded the rows that follow row #{} nor ended or failed: {} page(s) with {} row(s) were served, the last one {} and with{} a paging state; {}no row was delivered and no request reached the node for {:?} (consumer `{}` never woken?)",
+                got,
+                s.sent.len(),
+                sent_rows,
+                if s.sent.last().is_some_and(|p| p.is_empty()) { "EMPTY" } else { "not empty" },
+                if s.pos >= 1 && s.pages.get(s.pos - 1).is_some_and(|p| p.state.is_some()) { "" } else { "out" },
+                match s.sent.iter().skip(1).position(|p| p.is_empty()) {
+                    Some(j) => format!("page {} was a non-first EMPTY page; ", j + 1),
+                    None => String::new(),
+                },
+                window,
+                match case.consumer { Consumer::Eager => "eager (bare next().await)", Consumer::Slow => "slow", Consumer::Timed => "timed", _ => "drop" }
+            ));
             // the connection may be stuck: start from scratch next time
-            return "HANG".to_owned();
+            return format!("HANG rows={} requests={}", got, s.execs.len());
         }
     };
 
@@ -1086,7 +1308,7 @@ async fn run_case(case: &Case, ctx: &mut Ctx) -> String {
     if case.pk_error && (obs.fin != "ctor:PartitionKey" || !s.execs.is_empty()) {
         ctx.fail(format!("the bound values lack the partition key: expected ctor:PartitionKey and no request, got fin={} and {} request(s)", obs.fin, s.execs.len()));
     }
-    // 2c. cluster: which node gets which request (pager.rs 337-365 coordinator stability; RetryNextTarget
+    // 2c. cluster: which target (node; on sharded nodes (node, shard), printed as node*64+shard) gets which request (pager.rs 337-365 coordinator stability; RetryNextTarget
     //     goes to another node, RetrySameTarget to the same one) - the paging state is checked above and
     //     does not depend on the node
     if case.cluster > 0 {
@@ -1094,7 +1316,8 @@ async fn run_case(case: &Case, ctx: &mut Ctx) -> String {
             let (prev_pos, cur_pos) = (s.execs[i - 1].0, s.execs[i].0);
             let (prev_node, cur_node) = (s.exec_nodes[i - 1], s.exec_nodes[i]);
             let prev_answer = s.exec_answers[i - 1];
-            if cur_pos == prev_pos + 1 && prev_answer == 'p' && cur_node != prev_node {
+            let across_kill = s.killed.is_some_and(|(at, node)| i >= at && prev_node / 64 == node);
+            if cur_pos == prev_pos + 1 && prev_answer == 'p' && cur_node != prev_node && !across_kill {
                 ctx.fail(format!("request #{} (first attempt for page {}) went to node {} although page {} was served by node {}", i, cur_pos, cur_node, prev_pos, prev_node));
             }
             if cur_pos == prev_pos && prev_answer == 'R' && cur_node != prev_node {
@@ -1102,6 +1325,33 @@ async fn run_case(case: &Case, ctx: &mut Ctx) -> String {
             }
             if cur_pos == prev_pos && "oUbs".contains(prev_answer) && cur_node == prev_node {
                 ctx.fail(format!("request #{} retries page {} on the SAME node {} after a next-target retry decision", i, cur_pos, cur_node));
+            }
+        }
+        // once a next-target decision has left a node, no later request for that page goes to it
+        for pos in 0..=s.pos {
+            let mut left: Vec<usize> = Vec::new();
+            for i in 0..s.execs.len() {
+                if s.execs[i].0 != pos {
+                    continue;
+                }
+                if left.contains(&s.exec_nodes[i]) {
+                    ctx.fail(format!("request #{} for page {} went back to node {}, which an earlier next-target retry of this fetch had left", i, pos, s.exec_nodes[i]));
+                }
+                if "oUbs".contains(s.exec_answers[i]) {
+                    left.push(s.exec_nodes[i]);
+                }
+            }
+        }
+        if std::env::var_os("C07_DEBUG").is_some() {
+            eprintln!("C07_DEBUG nodes={:?} answers={:?} killed={:?}", s.exec_nodes, s.exec_answers, s.killed);
+        }
+        // a stopped coordinator gets no request any more; the fetch that follows starts on another node -
+        // with the paging state of the page before (checked above like for every request)
+        if let Some((at, node)) = s.killed {
+            for i in at..s.execs.len() {
+                if s.exec_nodes[i] / 64 == node {
+                    ctx.fail(format!("request #{} was received by node {} after it had been stopped", i, node));
+                }
             }
         }
     }
@@ -1303,7 +1553,32 @@ pub fn run(case: &str, ctx: &mut Ctx) -> String {
     if case.pages.is_empty() {
         return "bad-case".to_owned();
     }
-    RT.with(|rt| rt.block_on(run_case(&case, ctx)))
+    // Outer guard around the WHOLE case, setting up the client included: the `ctl` family's pager runs inside
+    // `SessionBuilder::build()` (the metadata fetch), and a kill / rebuild can block as well. Generous; it
+    // shrinks only after a hang was already reported in this process.
+    let hangs = HANGS.with(|h| h.get());
+    let limit = if hangs == 0 { Duration::from_secs(45) } else if hangs < 3 { Duration::from_secs(12) } else { Duration::from_secs(4) };
+    RT.with(|rt| {
+        rt.block_on(async {
+            let outcome = tokio::time::timeout(limit, run_case(&case, ctx)).await;
+            match outcome {
+                Ok(line) => line,
+                Err(_) => {
+                    HANGS.with(|h| h.set(h.get() + 1));
+                    ctx.fail(format!(
+                        "HANG: the case did not finish within {:?}{}",
+                        limit,
+                        if case.ctl {
+                            ": the session build - whose metadata fetch pages through system.peers with the control connection's pager - neither returned the peers nor failed"
+                        } else {
+                            " (outside the row stream: building the client, stopping a node or settling)"
+                        }
+                    ));
+                    "HANG setup".to_owned()
+                }
+            }
+        })
+    })
 }
 
 // ---------------------------------------------------------------------------------------------
@@ -1385,6 +1660,171 @@ pub fn generate(rng: &mut Rng, tier: Tier, emit: &mut dyn FnMut(String)) {
     gen_unprepared(rng, tier == Tier::Thorough, emit);
     gen_constructor(rng, tier == Tier::Thorough, emit);
     gen_control(rng, tier == Tier::Thorough, emit);
+    gen_empty_pages(rng, tier == Tier::Thorough, emit);
+    gen_dead_coordinator(rng, tier == Tier::Thorough, emit);
+    gen_entry_points(rng, tier == Tier::Thorough, emit);
+}
+
+/// The previous coordinator is stopped between two pages (`kill<k>`): its pool yields no connection, the
+/// next fetch must start on another node WITH the paging state of the page before. Also the sharded
+/// clusters (`cls`: a target is a (node, shard) pair; coordinator stability is per shard).
+fn gen_dead_coordinator(rng: &mut Rng, thorough: bool, emit: &mut dyn FnMut(String)) {
+    let kinds = ["clu2i", "clu2n", "clu3i", "clu3n", "cls2i", "cls3n"];
+    let n_kill = if thorough { 400 } else { 60 };
+    for i in 0..n_kill {
+        let n = 3 + rng.below(6) as usize;
+        let sizes: Vec<usize> = (0..n).map(|_| if rng.chance(1, 6) { 0 } else { 1 + rng.below(3) as usize }).collect();
+        let total: usize = sizes.iter().sum();
+        let sts = states(rng, n, false);
+        let mut faults = vec![vec![]; n];
+        if i % 3 == 0 {
+            let j = rng.below(n as u64) as usize;
+            faults[j] = vec![*rng.pick(&['R', 'd'])];
+        }
+        let k = rng.below(total as u64 + 1) as usize;
+        emit(with_kind(fmt_case(i % 2 == 0, Consumer::Kill(k), &build(&sizes, &sts, &faults)), kinds[i % kinds.len()]));
+    }
+    // sharded clusters: the whole fault table once more
+    let n_sh = if thorough { 3_000 } else { 400 };
+    for i in 0..n_sh {
+        let n = 1 + rng.below(7) as usize;
+        let sizes: Vec<usize> = (0..n).map(|_| if rng.chance(1, 5) { 0 } else { 1 + rng.below(6) as usize }).collect();
+        let total: usize = sizes.iter().sum();
+        let sts = states(rng, n, false);
+        let mut faults = vec![vec![]; n];
+        // On sharded nodes the plan of a later page is "(coordinator, its shard), then the load-balancing
+        // plan minus that (node, shard)": the coordinator's node may come again with another (random) shard, so
+        // the plan has n or n+1 targets. The script keeps the next-target hops of a page below n, where both
+        // lengths give the same outcome.
+        let nodes = [2usize, 2, 3, 3][i % 4];
+        for f in faults.iter_mut() {
+            if rng.chance(1, 3) {
+                let mut hops = 0;
+                for _ in 0..(1 + rng.below(3)) {
+                    let c = *rng.pick(&['o', 'o', 'b', 'U', 'R', 's', 'd']);
+                    if "obUs".contains(c) {
+                        if hops + 1 >= nodes {
+                            continue;
+                        }
+                        hops += 1;
+                    }
+                    f.push(c);
+                }
+            }
+        }
+        let consumer = match rng.below(8) {
+            0 => Consumer::Slow,
+            1 => Consumer::Timed,
+            2 => Consumer::Drop(rng.below(total as u64 + 2) as usize),
+            _ => Consumer::Eager,
+        };
+        emit(with_kind(fmt_case(i % 2 == 0, consumer, &build(&sizes, &sts, &faults)), ["cls2i", "cls2n", "cls3i", "cls3n"][i % 4]));
+    }
+}
+
+/// Two more public entry points of the session pager: `Session::query_iter` WITH values (`squeryv`: the
+/// session prepares the statement, then pages like execute_iter) and `CachingSession::execute_iter` (`scache`).
+fn gen_entry_points(rng: &mut Rng, thorough: bool, emit: &mut dyn FnMut(String)) {
+    let (len, size, rows) = if thorough { (4, 2, 5) } else { (3, 2, 4) };
+    let mut tick = 0usize;
+    for sizes in compositions(len, size, rows) {
+        let n = sizes.len();
+        let total: usize = sizes.iter().sum();
+        for k in 0..n {
+            for f in ["-", "u", "R", "o", "uu", "uR", "v"] {
+                tick += 1;
+                if !thorough && tick % 2 == 0 {
+                    continue;
+                }
+                let mut faults = vec![vec![]; n];
+                if f != "-" {
+                    faults[k] = f.chars().collect();
+                }
+                let sts = states(rng, n, false);
+                let consumer = match tick % 9 {
+                    0 => Consumer::Slow,
+                    1 => Consumer::Drop(tick % (total + 1)),
+                    2 => Consumer::Timed,
+                    _ => Consumer::Eager,
+                };
+                let kind = if tick % 4 < 2 { "squeryv" } else { "scache" };
+                emit(with_kind(fmt_case(tick % 3 == 0, consumer, &build(&sizes, &sts, &faults)), kind));
+            }
+        }
+    }
+    for _ in 0..(if thorough { 4_000 } else { 400 }) {
+        let n = 1 + rng.below(10) as usize;
+        let sizes: Vec<usize> = (0..n).map(|_| if rng.chance(1, 5) { 0 } else { 1 + rng.below(20) as usize }).collect();
+        let total: usize = sizes.iter().sum();
+        let sts = states(rng, n, false);
+        let mut faults = vec![vec![]; n];
+        for f in faults.iter_mut() {
+            match rng.below(8) {
+                0 => *f = vec!['u'],
+                1 => *f = vec!['R'],
+                2 => *f = vec!['d'],
+                _ => {}
+            }
+        }
+        let consumer = match rng.below(6) {
+            0 => Consumer::Slow,
+            1 => Consumer::Drop(rng.below(total as u64 + 2) as usize),
+            2 => Consumer::Timed,
+            _ => Consumer::Eager,
+        };
+        let kind = if rng.bool() { "squeryv" } else { "scache" };
+        let skipf = rng.bool();
+        emit(with_kind(fmt_case(skipf, consumer, &build(&sizes, &sts, &faults)), kind));
+    }
+}
+
+/// Non-first EMPTY pages followed by rows, by further empty pages, or by the end - in every pager family,
+/// consumed by a bare `next().await` loop (`eager`: no wake source but the stream itself - a wake-up lost
+/// after an empty page hangs it), under `select!` with a timer (`timed`) and with yields (`slow`).
+fn gen_empty_pages(rng: &mut Rng, thorough: bool, emit: &mut dyn FnMut(String)) {
+    let shapes: Vec<Vec<usize>> = vec![
+        vec![1, 0, 1],
+        vec![2, 0, 0, 1],
+        vec![1, 0],
+        vec![0, 0, 2],
+        vec![3, 0, 2, 0, 1],
+        vec![1, 0, 0, 0, 0, 1],
+        vec![0, 1, 0],
+        vec![2, 0, 0],
+    ];
+    let kinds = ["pg", "sess", "sessdg", "squery", "clu2i", "clu3n", "clu3i", "ctl"];
+    let reps = if thorough { 6 } else { 1 };
+    for rep in 0..reps {
+        for sizes in &shapes {
+            for kind in kinds {
+                for consumer in [Consumer::Eager, Consumer::Timed, Consumer::Slow] {
+                    if kind == "ctl" && consumer != Consumer::Eager {
+                        continue;
+                    }
+                    let n = sizes.len();
+                    let sts = states(rng, n, false);
+                    emit(with_kind(fmt_case(rep % 2 == 1, consumer, &build(sizes, &sts, &[])), kind));
+                    // with the metadata-id extension / a retried request on the empty page
+                    if kind == "pg" || kind == "sess" {
+                        emit(with_ext(with_kind(fmt_case(false, consumer, &build(sizes, &sts, &[])), kind), rep % 2 == 0));
+                        let mut faults = vec![vec![]; n];
+                        if let Some(j) = sizes.iter().skip(1).position(|x| *x == 0) {
+                            faults[j + 1] = vec!['u'];
+                        }
+                        emit(with_kind(fmt_case(false, consumer, &build(sizes, &sts, &faults)), kind));
+                    }
+                }
+            }
+        }
+    }
+    for _ in 0..(if thorough { 6_000 } else { 600 }) {
+        let n = 2 + rng.below(10) as usize;
+        let sizes: Vec<usize> = (0..n).map(|i| if i > 0 && rng.chance(1, 2) { 0 } else { 1 + rng.below(6) as usize }).collect();
+        let sts = states(rng, n, false);
+        let kind = *rng.pick(&kinds[..7]);
+        let consumer = *rng.pick(&[Consumer::Eager, Consumer::Eager, Consumer::Timed, Consumer::Slow]);
+        emit(with_kind(fmt_case(rng.bool(), consumer, &build(&sizes, &sts, &[])), kind));
+    }
 }
 
 /// The control connection's own pager: while a Session is built, its metadata fetch pages through
